@@ -286,11 +286,11 @@ def crash_family(res, ctx, tag, kinds, n_quick, n_thorough, io_mix=(0, 0, 0, 0, 
             ops, cfg = crashcheck.workload(rng, io=io, kind=kind, nsteps=nsteps)
         items.append((i, kind, io, ops, cfg))
     froms = {}
-    if ctx.quick:
-        # quick tier: a memory-mapped workload is crashed only during its second half (seconds per image)
-        for (i, kind, io, ops, cfg) in items:
-            if io == 1:
-                froms[i] = len(ops) // 2
+    # a memory-mapped workload is crashed only during its second half (every image costs seconds: each recovery reads and clears
+    # the 512 MiB extension of every file)
+    for (i, kind, io, ops, cfg) in items:
+        if io == 1:
+            froms[i] = len(ops) // 2
     if tag == "C03":
         # directed: a power failure persists the first part of a large record whose bytes decode as SHORT chunks (0x01...: length 257);
         # recovery cuts it away; a short write follows; then a second crash without Close.  Whatever recovery cut away logically must
@@ -309,7 +309,7 @@ def crash_family(res, ctx, tag, kinds, n_quick, n_thorough, io_mix=(0, 0, 0, 0, 
         if tag == "C07" and ctx.quick and kind == "merge-multi":
             cuts = "none"      # quick tier: power-loss cuts (torn active file + pending adoption) only on the short merge workloads
         recs, err, rc = crashcheck.run_crash(ctx, ops, mode="io", cuts=cuts, from_op=froms.get(i, 0),
-                                             dumpfiles=True, level2=level2, timeout=1800, postmerge=postmerge)
+                                             dumpfiles=True, level2=(level2 and io == 0), timeout=3600, postmerge=postmerge)
         return recs, err, rc
     results = core.parallel_map(job, items, workers=8)
     for (i, kind, io, ops, cfg), (recs, err, rc) in zip(items, results):
@@ -358,8 +358,8 @@ def check_C13(res, ctx):
                "idx": rng.choice([1, 2, 3]), "io": io, "shards": 16}
         g = engine.Gen(rng, cfg, nkeys=5, weights={"reopen": 2, "merge": 1, "keys": 0, "fold": 0, "dump": 0, "stat": 0, "getabsent": 0,
                                                    "emptykey": 0, "get": 1, "sync": 5, "batch": 12}, max_val=rng.choice([200, 5000, 40000]))
-        ops = [o for o in g.history(30 if ctx.quick else 60) if o.split()[0] not in ("dump", "stat", "files")]
-        recs, err, rc = crashcheck.run_crash(ctx, ops, mode="points", cuts="none", dumpfiles=False)
+        ops = [o for o in g.history(30 if (ctx.quick or io == 1) else 60) if o.split()[0] not in ("dump", "stat", "files")]
+        recs, err, rc = crashcheck.run_crash(ctx, ops, mode="points", cuts="none", dumpfiles=False, timeout=(2400 if io == 1 else 900))
         return i, sync, cfg, ops, recs, err, rc
     for i, sync, cfg, ops, recs, err, rc in core.parallel_map(job, list(range(n)), workers=8):
         if rc != 0:
